@@ -17,6 +17,7 @@ import (
 	"github.com/apmckinlay/gsuneido/db19/meta/schema"
 	"github.com/apmckinlay/gsuneido/db19/stor"
 	"github.com/apmckinlay/gsuneido/dbms/query"
+	"github.com/apmckinlay/gsuneido/options"
 
 	"verifsim/hkit"
 	"verifsim/simrt"
@@ -940,6 +941,7 @@ func Run(s *simrt.Sim, mode string, ri *hkit.RunInfo) {
 	chunk := 16384 << g.Choose(4)
 	simmaphash.Bits.Store(int32([]int{0, 0, 16, 6}[g.Choose(4)]))
 	defer simmaphash.Bits.Store(0)
+	options.Nworkers = g.Range(1, 8) // otherwise derived from GOMAXPROCS: a hidden input
 	db19.MakeSuTran = func(ut *db19.UpdateTran) *core.SuTran { return core.NewSuTran(nil, true) }
 	core.Exit = func(code int) { panic(simrt.Fatal{Msg: fmt.Sprintf("core.Exit(%d)", code)}) }
 
